@@ -24,7 +24,7 @@ PENDING = {
                        "'has content' for the encoders (WBXML content bit + END, XML <x></x>) while the equivalent XML text is parsed "
                        "into an element without that child: API-built and parsed documents differ [D22]",
 }
-DEFECT_OF = {"extract-between-texts": "D17", "empty-text-node": "D22"}
+DEFECT_OF = {"extract-between-texts": "D17", "empty-text-node": "D41"}
 
 
 def known(ctx, key):
